@@ -310,6 +310,15 @@ func extraFacts(repo string, fc *Facts) error {
 			})
 			if gets > 0 || puts > 0 {
 				esc := "contained"
+				// a function that takes pooled buffers and puts them back when it returns must not hand
+				// out byte slices: they could alias a buffer that is already back in the pool
+				if fn.Type.Results != nil {
+					for _, r := range fn.Type.Results.List {
+						if exprStr(fs, r.Type) == "[]byte" {
+							esc = "escapes"
+						}
+					}
+				}
 				ast.Inspect(fn, func(n ast.Node) bool {
 					if r, ok := n.(*ast.ReturnStmt); ok {
 						for _, e := range r.Results {
